@@ -364,3 +364,5 @@ Definition c41_verdict (c : c41_case) : Z :=
 Definition c41_check (c : c41_case) : bool := let v := c41_verdict c in (v =? 0) || (v =? 2).
 Definition c41_agree (c : c41_case) : bool := c41_verdict c =? 0.
 Definition c41_wellformed (c : c41_case) : bool := let v := c41_verdict c in (v =? 0) || (v =? 1) || (v =? 2).
+(* the "short" variant (a value is missing): the rewrite must fail *)
+Definition c41_unbound (c : c41_case) : bool := c41_verdict c =? 4.
